@@ -21,8 +21,8 @@ import (
 
 	"github.com/anishathalye/porcupine"
 	"github.com/meshplus/bitxhub-model/pb"
-	"github.com/meshplus/bitxhub/pkg/order/mempool"
 	raftproto "github.com/meshplus/bitxhub/pkg/order/etcdraft/proto"
+	"github.com/meshplus/bitxhub/pkg/order/mempool"
 )
 
 type concIn struct {
